@@ -74,9 +74,19 @@ def c24_subers():
         if not d.opened:
             raise core.Infra("cannot open lmdb scratch environment")
         _state["duror"] = d
+        if int(d.env.max_key_size()) != MAXKEY:
+            raise core.Infra(f"lmdb max key size {d.env.max_key_size()} != {MAXKEY}")
         _state["subers"] = dict(plain=during.Suber(db=d, subkey="p."),
                                 io=during.IoSuber(db=d, subkey="i."),
-                                ioset=during.IoSetSuber(db=d, subkey="s."))
+                                ioset=during.IoSetSuber(db=d, subkey="s."),
+                                iox=during.IoSuber(db=d, subkey="ix.", ionsep="|"),
+                                iosetx=during.IoSetSuber(db=d, subkey="sx.", ionsep="|"))
+        # neighbours in the same environment that no case may ever touch
+        sen = during.IoSuber(db=d, subkey="zz.")
+        _drop(d.env, sen.sdb)
+        sen.put(b"k", ["s0", "s1"])
+        sen.add(b"k." + hexw(0), "s2")
+        _state["sentinel"] = (sen, raw_items(d.env, sen.sdb))
     return _state["duror"], _state["subers"]
 
 
@@ -90,7 +100,7 @@ def enc(r):
         return bytes(r)
     if isinstance(r, (list, tuple)):
         return tuple(enc(x) for x in r)
-    raise core.Infra(f"unexpected API result {r!r}")
+    return ("unexpected", type(r).__name__.replace(" ", "_") or "x")     # never crash: becomes an observation no oracle accepts
 
 
 def _s(b):
@@ -100,13 +110,53 @@ def _s(b):
 TOPOPS = ("items", "itemstop", "fullitems", "trim")
 
 
+def kform(k, j, sep="."):
+    """the same key in another accepted form: bytes / str / memoryview / tuple of parts joined by the separator"""
+    m = j % 4
+    if m == 1:
+        return k.decode()
+    if m == 2:
+        return memoryview(k)
+    if m == 3:
+        return tuple(k.decode().split(sep))
+    return k
+
+
+def vform(v, j):
+    m = (j // 4) % 3
+    if m == 1:
+        return v              # bytes
+    if m == 2:
+        return memoryview(v)
+    return v.decode()
+
+
 def c24_keys(ops):
     return tuple(sorted({op[1] for op in ops if len(op) > 1 and op[0] not in TOPOPS}))
 
 
-def c24_apply(sub, kind, op):
+def c24_apply(sub, kind, op, j=0):
     try:
         name = op[0]
+        if kind in ("iox", "iosetx"):
+            kind = kind[:-1]
+        if name not in TOPOPS and len(op) > 1:
+            op = (name, kform(op[1], j, sub.sep)) + tuple(op[2:])
+        _s = lambda b: vform(b, j)     # noqa: E731  (shadows the module-level str form on purpose)
+        if name == "badadd":
+            return enc(sub.add(op[1], 7))
+        if name == "badput":
+            return enc(sub.put(op[1], 7) if kind == "plain" else sub.put(op[1], [7 if v == 7 else _s(v) for v in op[2]]))
+        if name == "badpin":
+            return enc(sub.pin(op[1], 7) if kind == "plain" else sub.pin(op[1], [7 if v == 7 else _s(v) for v in op[2]]))
+        if name in ("get", "iter") and kind != "plain":
+            r = sub.get(op[1]) if name == "get" else list(sub.getIter(op[1]))
+            out = enc(r)
+            if isinstance(r, list):      # the caller may do what it likes with the returned container
+                r.append("junk")
+                r.reverse()
+                del r[:]
+            return out
         if name == "itemstop":
             return tuple((sub.sep.join(k).encode(), enc(v)) for k, v in sub.getItemIter(op[1]))
         if name == "fullitems":
@@ -167,8 +217,8 @@ def c24_run(case):
     _drop(d.env, sub.sdb)
     keys = c24_keys(ops)
     steps = []
-    for op in ops:
-        res = c24_apply(sub, kind, op)
+    for j, op in enumerate(ops):
+        res = c24_apply(sub, kind, op, j)
         snap = []
         for k in keys:
             try:
@@ -176,6 +226,12 @@ def c24_run(case):
             except Exception as ex:
                 snap.append(classify(ex))
         steps.append((res, tuple(snap)))
+    sen, want = _state["sentinel"]
+    if raw_items(d.env, sen.sdb) != want:      # a neighbouring sub-db of the same environment changed
+        steps.append((("unexpected", "sentinel-subdb-changed"), ()))
+        _drop(d.env, sen.sdb)
+        sen.put(b"k", ["s0", "s1"])
+        sen.add(b"k." + hexw(0), "s2")
     return (tuple(steps), raw_items(d.env, sub.sdb))
 
 
@@ -196,8 +252,10 @@ def f39_pairs(keys, nvals):
 def c24_nvals(ops):
     n = 0
     for op in ops:
-        if op[0] == "add":
+        if op[0] in ("add", "badadd"):
             n += 1
+        elif op[0] in ("badput", "badpin"):
+            n += len(op[2]) if len(op) > 2 else 1
         elif op[0] in ("put", "pin") and isinstance(op[2], (list, tuple)):
             n += len(op[2])
     return n
@@ -223,7 +281,17 @@ INVALID = {-1: None, -2: "junk", -3: 7}      # arguments a Durq/Dusq must reject
 
 
 def c23_val(i):
-    return INVALID[i] if i < 0 else _vals()[i]
+    """a FRESH object equal to table entry i on every call (equal-but-not-identical arguments)"""
+    import copy
+    return INVALID[i] if i < 0 else copy.deepcopy(_vals()[i])
+
+
+def _scribble(v):
+    """what a caller may do to an object it passed in or got back: Dusq promises copies, so nothing may change"""
+    try:
+        v.value = "scribbled"
+    except Exception:
+        pass                      # frozen (IceBag) or not a dom
 
 
 def c23_open():
@@ -256,7 +324,7 @@ def _mk(kind, pre=None):
     """a fresh empty queue object, or one PRELOADED through its constructor (Durq(vals) / Dusq(vals))"""
     from hio.base.hier import Durq, Dusq
     cls = Durq if kind == "durq" else Dusq
-    return cls() if pre is None else cls([c23_val(i) for i in pre])
+    return cls() if pre is None else cls([c23_val(i) for i in pre])     # pre == "keep" is handled by the caller
 
 
 def _observe(kind, s, hold, keys):
@@ -264,7 +332,14 @@ def _observe(kind, s, hold, keys):
     sdb = s.drqs if kind == "durq" else s.dsqs
     for k in keys:
         q = hold[k]
-        mem = tuple(c23_ser(v) for v in q)
+        try:
+            got = list(q)
+            mem = tuple(c23_ser(v) for v in got)
+            if kind == "dusq":
+                for v in got:
+                    _scribble(v)
+        except Exception as ex:
+            mem = classify(ex)
         try:
             dur = tuple(bytes(sdb._ser(v)) for v in sdb.get(k))
         except Exception as ex:
@@ -283,25 +358,46 @@ def c23_run(case):
         s = c23_open()
     _drop(s.env, s.drqs.sdb)
     _drop(s.env, s.dsqs.sdb)
+    # the sibling sub-db of the other kind holds values at the SAME keys: nothing a case does may touch them
+    other = s.dsqs if kind == "durq" else s.drqs
+    for k in keys:
+        other.put(k, [_vals()[0], _vals()[1]])
+    sentinel = raw_items(s.env, other.sdb)
     hold = Hold(_hold_subery=s)
     for k in keys:
         hold[k] = _mk(kind)
     steps = []
+    nre = 0
     for op in ops:
         name = op[0]
         try:
             if name == "reopen":
+                nre += 1
+                old = {k: hold[k] for k in keys}
                 s.close()
-                s = c23_open()
+                if nre % 2:
+                    s = c23_open()               # a new Subery object on the same directory
+                else:
+                    s.reopen(reuse=True)         # the SAME Subery object opened again
+                    _state["subery"] = s
+                    if not s.opened:
+                        raise core.Infra("Subery.reopen failed")
                 hold = Hold(_hold_subery=s)
                 pres = op[1] if len(op) > 1 else [None] * len(keys)
-                for k, pre in zip(keys, pres):
-                    hold[k] = _mk(kind, pre)
+                for j, (k, pre) in enumerate(zip(keys, pres)):
+                    obj = old[k] if pre == "keep" else _mk(kind, pre)     # "keep": the same queue object goes into the new Hold
+                    if (nre + j) % 2:
+                        hold[k] = obj
+                    else:
+                        hold.update({k: obj})
                 res = True
             else:
                 q = hold[keys[op[1]]]
                 if name == "push":
-                    res = q.push(c23_val(op[2]))
+                    arg = c23_val(op[2])
+                    res = q.push(arg)
+                    if kind == "dusq":
+                        _scribble(arg)
                 elif name == "pull":
                     res = q.pull()
                 elif name == "pullx":
@@ -309,6 +405,9 @@ def c23_run(case):
                 elif name == "extend":
                     vals = [c23_val(i) for i in op[2]]
                     res = q.extend(vals) if kind == "durq" else q.update(vals)
+                    if kind == "dusq":
+                        for v in vals:
+                            _scribble(v)
                 elif name == "sync":
                     res = q.sync(force=bool(op[2]))
                 elif name == "clear":
@@ -320,12 +419,18 @@ def c23_run(case):
                 else:
                     raise core.Infra(f"bad op {op!r} for {kind}")
             if not (res is None or isinstance(res, (bool, int))):
-                res = c23_ser(res)
+                got = res
+                res = c23_ser(got)
+                if kind == "dusq":
+                    _scribble(got)
         except core.Infra:
             raise
         except Exception as ex:
             res = classify(ex)
         steps.append((res, _observe(kind, s, hold, keys)))
+    other = s.dsqs if kind == "durq" else s.drqs
+    if raw_items(s.env, other.sdb) != sentinel:
+        steps.append((("unexpected", "sibling-subdb-changed"), ()))
     return tuple(steps)
 
 
@@ -354,6 +459,8 @@ def adversarial_keys(rng, n):
         hexw(o),                                 # a bare 32-hex key
         b"",                                     # empty apparent key (legal for the io kinds)
         rng.choice(alpha) + rng.choice(alpha),
+        base + "\u00a0".encode(), base + "\uffff".encode(), base + SEP + "\u00e9".encode(), "\u0100".encode() + base,   # non-ASCII (multi-byte, bytes > 0x7f sort above everything)
+        base + b"|", base + b".|" + hexw(0),       # the alternative separator
     ]
     k = rng.randrange(1, n + 1)
     out = [base]
